@@ -113,7 +113,16 @@ func unmarshalMultiPoint(order byteOrder, data []byte) (orb.MultiPoint, error) {
 	result := make(orb.MultiPoint, 0, alloc)
 
 	for i := 0; i < int(num); i++ {
-		p, _, err := ScanPoint(data)
+		// a member is a plain point: ScanPoint would also accept a one-member multi point, nested to
+		// any depth, while the stride below stays 21 (quadratic work, unbounded recursion)
+		mOrder, typ, _, geomData, err := unmarshalByteOrderType(data)
+		if err != nil {
+			return nil, err
+		}
+		if typ != pointType {
+			return nil, ErrIncorrectGeometry
+		}
+		p, err := unmarshalPoint(mOrder, geomData)
 		if err != nil {
 			return nil, err
 		}
